@@ -2,8 +2,8 @@
 # tools/vs.sh C04 [extra verify_seed args]  -> verifies change1 and change2 of that property and keeps them under seeded/
 id=$1; shift
 for n in 1 2; do
-  [ -f /tmp/seed/$id/_out/change$n.diff ] || continue
-  python3 tools/verify_seed.py $id $n --keep-as $id-$n "$@" 2>&1 | python3 -c "
+  [ -f ${SEED_ROOT:-/tmp/seed}/$id/_out/change$n.diff ] || continue
+  python3 tools/verify_seed.py $id $n --keep-as $id-${SEED_TAG:-}$n "$@" 2>&1 | python3 -c "
 import json,sys
 t=sys.stdin.read()
 try:
